@@ -2010,10 +2010,9 @@ func (mgr *Manager) detachConverterFromTag(tag *tag, tagName string, converter *
 		}
 	}
 
-	// only delete results for streams that are not matched by other tags
-	onlyThisTag := tag.Matches.Copy()
-	onlyThisTag.Sub(matchingStreams)
-	mgr.streamsToConvert[converter.Name()].Sub(onlyThisTag)
+	// only keep streams queued that the other tags still need: the matches of this tag alone are
+	// dropped, and so is anything queued earlier for a stream that no longer matches any of them
+	mgr.streamsToConvert[converter.Name()].And(matchingStreams)
 	// TODO: invalidate all streams in the cache that are only matched by this tag.
 
 	if matchingStreams.IsZero() {
